@@ -46,7 +46,7 @@ pub enum DecErr {
     Eof,
     Invalid(String),
     /// a declared length that the remaining input cannot possibly encode
-    HugeLen { declared: u64, remaining: usize },
+    HugeLen { declared: u64, remaining: usize, min_elem: usize },
     Trailing(usize),
 }
 
@@ -296,7 +296,7 @@ impl<'a> Cur<'a> {
             (n as u128) * (min_elem as u128) > rem as u128
         };
         if too_big {
-            return Err(DecErr::HugeLen { declared: n, remaining: rem });
+            return Err(DecErr::HugeLen { declared: n, remaining: rem, min_elem });
         }
         Ok(n as usize)
     }
@@ -318,7 +318,7 @@ impl Universe {
                         Ok(DV::N(if x == 1 { 1 } else { 0 }))
                     }
                     Prim::Char => {
-                        if char::from_u32(x as u32).is_none() {
+                        if char::from_u32(x as u32).is_none() && !c.lenient {
                             return Err(DecErr::Invalid(format!("char {:#x}", x)));
                         }
                         Ok(DV::N(x))
